@@ -261,7 +261,14 @@ def bounded(rep, pairs, tier):
             n += 1
             d = native_failure(m, gname, x, {}, None)
             if d:
-                rep.refuted('C12/%s/%s/corpus' % (m, gname), m, '%s: corpus' % gname, d, dict(function='%s:%s' % (m, gname), input=x, getter=gname, real=d), True, still_fails)
+                # the same defect may already be listed under the key the symbolic closure gives it: a listed finding of the same
+                # module and getter whose recorded witness still fails is the same finding
+                key = '%s: corpus' % gname
+                for k_ in rep.known:
+                    if k_['module'] == m and k_.get('status', 'known') == 'known' and str(k_['key']).startswith(gname + ':'):
+                        key = k_['key']
+                        break
+                rep.refuted('C12/%s/%s/corpus' % (m, gname), m, key, d, dict(function='%s:%s' % (m, gname), input=x, getter=gname, real=d), True, still_fails)
                 break
     rep.add('C12/corpus', 'bounded', 'eval', time.time() - t0, detail='%d (getter, corpus number) evaluations on the real code (bounded stand-in)' % n)
 
